@@ -40,3 +40,48 @@ def connected_ref(h):
     from .refs import components
 
     return len(components(list(h.get_nodes()), [tuple(e) for e in h.get_edges()])) == 1
+
+
+def refused_calls(rng, h, directed=False, n=None):
+    """Client calls the library is documented to REFUSE (their exceptions are caught the way a caller would),
+    made on a live object between constructing it and measuring it.  C01-C04 establish that a refused call
+    leaves every observable unchanged, so on a correct tree this is a no-op; a validation that fires after part
+    of the state has been written leaves an object whose listings disagree, and the measures are then judged on
+    exactly that object.  Returns the number of calls that were refused."""
+    nodes = list(h.get_nodes())
+    refused = 0
+    if len(nodes) < 2:
+        return 0
+
+    def new_edge():
+        for _ in range(20):
+            k = rng.randint(2, min(4, len(nodes)))
+            ns = rng.sample(nodes, k)
+            if directed:
+                cut = rng.randint(1, k - 1)
+                e = (tuple(sorted(ns[:cut])), tuple(sorted(ns[cut:])))
+            else:
+                e = tuple(sorted(ns))
+            if not h.check_edge(e):
+                return e
+        return None
+
+    for _ in range(n or rng.randint(1, 3)):
+        r = rng.randrange(5)
+        try:
+            e = new_edge()
+            if r == 0 and e is not None and not h.is_weighted():
+                h.add_edge(e, weight=rng.choice([2, 0.5, 3]))
+            elif r == 1 and e is not None and not h.is_weighted():
+                h.add_edge(e, weight=rng.choice([7, 1.5]), metadata={"refused": True})
+            elif r == 2 and e is not None:
+                h.remove_edge(e)
+            elif r == 3 and e is not None:
+                h.set_weight(e, 4)
+            elif r == 4 and e is not None and h.is_weighted():
+                h.add_edges([e], weights=[1, 2])  # length mismatch
+            else:
+                continue
+        except Exception:
+            refused += 1
+    return refused
